@@ -5,7 +5,7 @@
 
 use ckb_chain_spec::consensus::Consensus;
 use ckb_network::bytes::Bytes;
-use ckb_types::{core::ExtraHashView, packed, prelude::*};
+use ckb_types::{core::ExtraHashView, packed, prelude::*, U256};
 
 #[derive(Clone, Debug)]
 pub(crate) struct Mutant {
@@ -159,6 +159,97 @@ pub(crate) fn reseal_lc(consensus: &Consensus, data: &[u8]) -> Option<Bytes> {
         }
         _ => None,
     }
+}
+
+/// Total difficulties next to what the receiver already trusts: for every verifiable header of a
+/// SendLastState / SendLastStateProof (the last header and each proof header) the total
+/// difficulty of its parent chain root is set to S-D-1, S-D, S-D+1, S-1, S, S+1 for every base S
+/// (the stored / proven total difficulties of the receiver; D = the header's own difficulty), raw
+/// and with the header re-sealed so that it commits to the altered root. Fixed boundary values
+/// (0, 2^64-1, 2^256-1 ...) never land between a parent's and a child's total difficulty.
+pub(crate) fn td_variants(consensus: &Consensus, data: &[u8], bases: &[U256]) -> Vec<Mutant> {
+    use ckb_types::utilities::compact_to_difficulty;
+    let mut out = vec![];
+    let msg = match packed::LightClientMessage::from_slice(data) {
+        Ok(m) => m,
+        Err(_) => return out,
+    };
+    let values = |vh: &packed::VerifiableHeader| -> Vec<(String, U256)> {
+        let compact: u32 = vh.header().raw().compact_target().unpack();
+        let d = compact_to_difficulty(compact);
+        let mut v = vec![];
+        for (bi, s) in bases.iter().enumerate() {
+            let one = U256::one();
+            let mut push = |name: &str, x: Option<U256>| {
+                if let Some(x) = x {
+                    v.push((format!("S{}{}", bi, name), x));
+                }
+            };
+            let s_minus_d = s.checked_sub(&d);
+            push("-D-1", s_minus_d.clone().and_then(|x| x.checked_sub(&one)));
+            push("-D", s_minus_d.clone());
+            push("-D+1", s_minus_d.and_then(|x| x.checked_add(&one)));
+            push("-1", s.checked_sub(&one));
+            push("", Some(s.clone()));
+            push("+1", s.checked_add(&one));
+        }
+        v
+    };
+    let with_td = |vh: &packed::VerifiableHeader, td: &U256| -> packed::VerifiableHeader {
+        let root = vh.parent_chain_root().as_builder().total_difficulty(td.pack()).build();
+        vh.clone().as_builder().parent_chain_root(root).build()
+    };
+    match msg.to_enum() {
+        packed::LightClientMessageUnion::SendLastState(m) => {
+            let vh = m.last_header();
+            for (name, td) in values(&vh) {
+                for sealed in [false, true] {
+                    let mut v = with_td(&vh, &td);
+                    if sealed {
+                        v = reseal_vh(consensus, &v);
+                    }
+                    out.push(Mutant {
+                        label: format!("td(last_header):={}{}", name, if sealed { "+resealed" } else { "" }),
+                        data: packed::LightClientMessage::new_builder().set(m.clone().as_builder().last_header(v).build()).build().as_bytes(),
+                    });
+                }
+            }
+        }
+        packed::LightClientMessageUnion::SendLastStateProof(m) => {
+            let vh = m.last_header();
+            for (name, td) in values(&vh) {
+                for sealed in [false, true] {
+                    let mut v = with_td(&vh, &td);
+                    if sealed {
+                        v = reseal_vh(consensus, &v);
+                    }
+                    out.push(Mutant {
+                        label: format!("td(last_header):={}{}", name, if sealed { "+resealed" } else { "" }),
+                        data: packed::LightClientMessage::new_builder().set(m.clone().as_builder().last_header(v).build()).build().as_bytes(),
+                    });
+                }
+            }
+            let headers: Vec<packed::VerifiableHeader> = m.headers().into_iter().collect();
+            for (i, vh) in headers.iter().enumerate() {
+                for (name, td) in values(vh) {
+                    for sealed in [false, true] {
+                        let mut v = with_td(vh, &td);
+                        if sealed {
+                            v = reseal_vh(consensus, &v);
+                        }
+                        let mut hs = headers.clone();
+                        hs[i] = v;
+                        out.push(Mutant {
+                            label: format!("td(headers[{}]):={}{}", i, name, if sealed { "+resealed" } else { "" }),
+                            data: packed::LightClientMessage::new_builder().set(m.clone().as_builder().headers(hs.pack()).build()).build().as_bytes(),
+                        });
+                    }
+                }
+            }
+        }
+        _ => {}
+    }
+    out
 }
 
 fn vec_variants<T: Clone>(items: &[T]) -> Vec<(&'static str, Vec<T>)> {
